@@ -392,6 +392,15 @@ def run_pool_ops(case):
         out['result'] = [pool.run(t) for t in tasks[:2]]
       elif case['op'] == 'call_and_wait':
         out['result'] = pool.call_and_wait(tasks[0])
+      elif case['op'] == 'as_completed_closed':
+        # the caller takes `take` results and closes the generator early
+        gen = orchestrate.as_completed(pool, tasks)
+        out['result'] = []
+        for x in gen:
+          out['result'].append(x)
+          if len(out['result']) >= case.get('take', 1):
+            break
+        gen.close()
       else:
         out['result'] = list(orchestrate.as_completed(pool, tasks))
     except Exception as e:  # pylint: disable=broad-exception-caught
@@ -409,7 +418,9 @@ def run_pool_ops(case):
     w.release()
   check(not hung, 'hang', f'{what}: pool operation still running after 60 s')
   fails = any(t[0] == 'fail' for t in (case['tasks'][:2] if case['op'] == 'run' else case['tasks'][:1] if case['op'] == 'call_and_wait' else case['tasks']))
-  if fails:
+  if case['op'] == 'as_completed_closed':
+    pass      # an early close may or may not have met the failing task: only the ownership invariant below applies
+  elif fails:
     check('error' in out, 'task-error-swallowed', f'{what}: a task raises but the operation returned {out.get("result")!r}')
   elif died:
     # the death may surface as an error (call_and_wait / run on the dead worker, or no worker left) or be retried elsewhere;
@@ -422,6 +433,8 @@ def run_pool_ops(case):
     if case['op'] == 'as_completed':
       want = sorted(t[1] + 1 for t in case['tasks'])
       check(sorted(out['result']) == want, 'results-not-exactly-once', f'{what}: got {sorted(out["result"])}, want {want}')
+  if case['op'] == 'as_completed_closed' and 'error' in out and not fails and not died:
+    raise Violation('unexpected-error', f'{what}: {out["error"]!r}')
   check(not acquired, 'workers-left-acquired', f'{what}: after the operation {"raised" if "error" in out else "returned"} the pool still holds {acquired}')
   return {'nontrivial': fails or died or len(case['tasks']) >= 2,
           'classes': [f'op-{case["op"]}', 'failing-task' if fails else 'ok-tasks'] + (['worker-died-while-acquired'] if died else [])}
@@ -430,10 +443,10 @@ def run_pool_ops(case):
 def strat_pool_ops(tier):
   task = st.one_of(st.tuples(st.just('ok'), st.integers(0, 50)).map(list), st.tuples(st.just('ok'), st.integers(0, 50)).map(list),
                    st.tuples(st.just('fail'), st.integers(0, 50)).map(list))
-  return st.builds(lambda op, w, t, r, d: {'op': op, 'workers': w, 'tasks': t, 'rseed': r, 'die': d},
-                   st.sampled_from(['run', 'call_and_wait', 'as_completed', 'as_completed']),
-                   st.integers(1, 3), st.lists(task, min_size=1, max_size=5), st.integers(0, 10**6),
-                   st.sampled_from([None, None, 0, 1, 2]))
+  return st.builds(lambda op, w, t, r, d, k: {'op': op, 'workers': w, 'tasks': t, 'rseed': r, 'die': d, 'take': k},
+                   st.sampled_from(['run', 'call_and_wait', 'as_completed', 'as_completed', 'as_completed_closed']),
+                   st.integers(1, 3), st.lists(task, min_size=1, max_size=6), st.integers(0, 10**6),
+                   st.sampled_from([None, None, 0, 1, 2]), st.integers(1, 3))
 
 
 SCENARIOS = [
@@ -444,5 +457,5 @@ SCENARIOS = [
     Scenario('ownership', run_ownership, strategy=strat_ownership, setup=setup_sched,
              budget={'quick': 3000, 'thorough': 80000}, shards={'quick': 6, 'thorough': 16}),
     Scenario('pool_operations', run_pool_ops, strategy=strat_pool_ops, setup=setup_pool_ops,
-             budget={'quick': 150, 'thorough': 2000}, shards={'quick': 4, 'thorough': 16}, nondeterministic=True),
+             budget={'quick': 800, 'thorough': 8000}, shards={'quick': 8, 'thorough': 16}, nondeterministic=True),
 ]
